@@ -51,6 +51,7 @@ ROUTINE = {1: "iterate_children", 2: "__len__", 3: "first_child", 4: "last_child
            21: "traverse_df_ltr_btt", 22: "traverse_df_ltr_ttb", 23: "_sort_nodes_in_document_order",
            24: "fetch_following", 25: "fetch_preceding"}
 
+DOCS_TOP = ['<!--p--><r>a<x/>b</r><!--e-->', '<?pi x?><!--p--><r><a><!--c--></a>t</r>', '<r><x>1</x>2</r><!--e--><?pi y?>']
 DOCS = ['<r>a<x/>b<!--c-->d<y>e<z/>f</y>g</r>', '<r><x/><y/></r>', '<r>t</r>', '<r/>',
         '<r><a><!--c--></a><x>1<i/>2<?p q?>3</x>4<y/>5</r>', '<r><!--c--><x><y><z>t</z></y></x><?p q?></r>',
         '<r><x>1<i/>2<j/>3</x>4<y/>5</r>', '<r><a><b><!--c--><?p?></b></a>t<x><x>u</x></x></r>']
@@ -169,6 +170,25 @@ class Dump:
         self.objs = []
         self.ok = True
         self.loose_text = isinstance(root, TextNode)
+        self.docid = None
+        pro, epi = [], []
+        if isinstance(root, TagNode) and root._etree_obj.getparent() is None:
+            e = root._etree_obj
+            pro = [_wrapper_cache(x) for x in reversed(list(e.itersiblings(preceding=True)))]
+            epi = [_wrapper_cache(x) for x in e.itersiblings()]
+        if pro or epi:                            # a document with root-level siblings
+            with altered_default_filters():
+                cp = [self._el(x) for x in pro]
+                cr = self._el(root)
+                ce = [self._el(x) for x in epi]
+                self.docid = len(self.objs)
+                self.cel = "(Build_cdoc [%s] %s [%s])" % ("; ".join(cp), cr, "; ".join(ce))
+                self.order = list(self.objs)
+                api_pro = list(reversed(list(root.iterate_preceding_siblings())))
+                api_epi = list(root.iterate_following_siblings())
+                self.tree = [self.docid, "tag", "#document", [self._tree(x) for x in api_pro + [root] + api_epi]]
+            self.itree = self._itree(self.tree)
+            return
         with altered_default_filters():
             if self.loose_text:                   # a DETACHED text node is a tree of one node
                 if root._position is not DETACHED or root.content == "":
@@ -351,6 +371,23 @@ def ancestors_of(idx, i):
 
 def classify(finding, case):
     """is the failing case inside the class of the listed finding?"""
+    if finding["cls"] == "df-btt-prunes":
+        # traverse_df_ltr_btt with passed filters descends through matching children only: a matching node below a
+        # non-matching one (other than the given root) is not reached
+        if case.get("routine") != "traverse_df_ltr_btt" or case.get("passed") in (None, "none"):
+            return False
+        idx = tree_index(case["tree"])
+        ok = set(case["ambient_members"]) & set(case.get("passed_members") or [])
+        root = case["node"]
+
+        def hidden_match(i, blocked):
+            for c in idx[i][0][3]:
+                if blocked and c[0] in ok:
+                    return True
+                if hidden_match(c[0], blocked or c[0] not in ok):
+                    return True
+            return False
+        return hidden_match(root, False)
     if finding["cls"] == "parentless-childless-depth":
         # depth of a comment / PI node without parent raises AttributeError
         if case.get("routine") not in ("depth",):
@@ -376,8 +413,6 @@ def demanded(key, d, amb_members):
     node, routine, aux = key
     if routine == 7:
         return node in amb_members            # the index of a node the ambient filter hides is not defined
-    if routine in (20, 21, 22):
-        return aux == 0                       # "enumerate the same node set in their documented orders": no filters passed
     return True
 
 
@@ -419,6 +454,9 @@ def direct_checks(ctx, d, case0, name, amb_members, real):
 
 
 # ------------------------------------------------------------------------------------------------ one batch of trees
+fs_of = {}
+
+
 def check_trees(ctx, cases):
     prepared = []
     terms = []
@@ -436,13 +474,16 @@ def check_trees(ctx, cases):
             tags = [i for i, o in enumerate(d.order) if isinstance(o, TagNode)]
             to_sort = [tags[(case["seed"] * 7 + 3 * k) % len(tags)] for k in range(min(5, len(tags) + 1))] if tags else []
             fs = [d.members(F) for _, F in PASSED]
+            fs_of[id(d)] = fs
             per_amb = []
             for name, amb, strict in AMBIENT:
                 members = d.members((_tag_or_text,) if amb is None else amb)
                 real = real_frames(d, amb, to_sort)
                 args = "%s [%s] %s %s" % (ilist(members), "; ".join(ilist(f) for f in fs),
                                           ilist(range(len(d.order))), ilist(to_sort))
-                if d.loose_text:
+                if d.docid is not None:
+                    terms.append("c_dump_doc %d %s %s" % (d.docid, d.cel, args))
+                elif d.loose_text:
                     terms.append("c_dump_loose_text %s %s [%s]" % (d.cel, ilist(members), "; ".join(ilist(f) for f in fs)))
                 else:
                     terms.append("c_dump %s %s" % (d.cel, args))
@@ -469,11 +510,26 @@ def check_trees(ctx, cases):
                     ctx.mismatch("CNav %s vs the implementation" % ROUTINE[key[1]],
                                  dict(case0, node=key[0], routine=ROUTINE[key[1]], aux=key[2], impl=r,
                                       model=model.get(key)))
-                if strict and demanded(key, d, members) and spec.get(key) != r:
+                want = spec.get(key)
+                if d.docid is not None and want is not None:
+                    # the oracle tree has a virtual document node above the root-level siblings: they have no parent
+                    if key[1] == 8 and want == [0, 1, d.docid]:
+                        want = [0, 0]
+                    elif key[1] == 7 and spec.get((key[0], 8, 0)) == [0, 1, d.docid]:
+                        want = [0, 0]
+                    elif key[1] == 16 and want[:1] == [0]:
+                        want = [0, want[1] - 1]
+                if key[1] in (20, 21, 22) and key[2] != 0 and want is not None and r[:1] == [0] and want[:1] == [0]:
+                    # with passed filters nothing is demanded about the given root (the breadth-first traverser applies
+                    # the filters to it, the depth-first ones yield it unconditionally): compare without it
+                    r = [0] + [x for x in r[1:] if x != key[0]]
+                    want = [0] + [x for x in want[1:] if x != key[0]]
+                if strict and demanded(key, d, members) and want != r:
                     ctx.fail("%s does not return what the one ordered tree determines" % ROUTINE[key[1]],
                              dict(case0, node=key[0], routine=ROUTINE[key[1]],
                                   passed=PASSED[key[2]][0] if key[1] not in (5, 6) else key[2],
-                                  impl=r, spec=spec.get(key)), classify)
+                                  passed_members=fs_of[id(d)][key[2]] if key[1] not in (5, 6) else None,
+                                  impl=r, spec=want), classify)
             if strict:
                 direct_checks(ctx, d, case0, name, members, real)
         if len(d.order) > 1:
@@ -517,14 +573,18 @@ def run(ctx, args):
     quick = ctx.tier == "quick"
     cases = [{"xml": x, "plan": [], "seed": i} for i, x in enumerate(DOCS)]
     cases += [{"xml": "loose:" + k, "plan": [], "seed": 0} for k in ("comment", "pi", "text", "tag")]
-    for i in range(26 if quick else 420):
+    cases += [{"xml": x, "plan": [], "seed": i} for i, x in enumerate(DOCS_TOP)]
+    for i in range(4 if quick else 60):
+        cases.append({"xml": ctx.rng.choice(DOCS_TOP), "plan": gen_plan(ctx.rng, ctx.rng.randint(1, 6)),
+                      "seed": ctx.rng.randint(0, 10 ** 6)})
+    for i in range(36 if quick else 420):
         cases.append({"xml": ctx.rng.choice(DOCS), "plan": gen_plan(ctx.rng, ctx.rng.randint(1, 8)),
                       "seed": ctx.rng.randint(0, 10 ** 6)})
     step = 60
     for s in range(0, len(cases), step):
         check_trees(ctx, cases[s:s + step])
     return ctx.finish(
-        rule="trees: %d parsed documents + parentless comment / PI / text node / element + trees reached by random histories of 1-8 public-API edits (append/prepend/"
+        rule="trees: %d parsed documents + parentless comment / PI / text node / element + documents with prologue and epilogue nodes (root-level siblings) + trees reached by random histories of 1-8 public-API edits (append/prepend/"
              "insert/add_following/add_preceding/detach/replace/merge_text_nodes with strings, TextNodes, tags, comments, "
              "PIs, tag() definitions, re-attached detached subtrees); on every node: 25 navigation routines under 6 ambient "
              "filters x 5 passed filters, all indices -(k+1)..k and 6 slices; correspondence against Conc/CNav.v for all, "
